@@ -238,6 +238,13 @@ C09_PROGRAMS = [
     ("true && false || true", "true"), ("fn fact(n) = if n < 1 then 1 else n * fact(n - 1)\nfact(5)", "120"),
     ("fn twice(f, x) = f(f(x))\nfn inc(x) = x + 1\ntwice(inc, 5)", "7"), ("3 |> sqr", "9"),
     ("let t = if true then if false then 1 else 2 else 3\nt", "2"),
+    ("fn shadowed(x) = x where x = 2\nshadowed(1)", "2"),
+    ("fn percent_plus_one(v) = v * k where v = v / 100 and k = v + 1\npercent_plus_one(50)", "0.75"),
+    ("fn inc(x) = x + 1\nfn dbl(x) = 2 x\nfn apply(inc: Fn[(Scalar) -> Scalar], v: Scalar) -> Scalar = inc(v)\napply(dbl, 10)", "20"),
+    ("fn vx_three(a, b, c) = a * 100 + b * 10 + c\nvx_three(1, 2, 3)", "123"),
+    ("struct Q { first: Scalar, second: Scalar, third: Scalar }\nlet q = Q { third: 3, first: 1, second: 2 }\nq.first * 100 + q.second * 10 + q.third", "123"),
+    ("let vx_s = \"b\"\n\"a{vx_s}c{1 + 1}d\"", "\"abc2d\""),
+    ("fn outer(x) = inner(x) + x where inner = sqr\nouter(3)", "12"),
 ]
 
 
@@ -248,6 +255,11 @@ def w_c09(seed):
         val = next((v for k, v in r if k == "OK"), None)
         if val is None or val.strip() != want:
             return {"found": True, "kind": "session", "what": f"program evaluates to {val!r} (or fails: {r[:1]}) but its source means {want}", "input": prog, "output": str(r)[:400], "cmd": f"{BIN} session", "stdin": prog}
+    seq = ["use prelude", "fn vx_step(x) = x + 1", "map(vx_step, [1, 2, 3])", "fn vx_step(x) = x + 10", "map(vx_step, [1, 2, 3])", "vx_step(1)"]
+    got2, raw2 = session(seq)
+    v4 = next((v for k, v in got2.get(4, []) if k == "OK"), None)
+    if v4 is None or v4.strip() != "[11, 12, 13]":
+        return {"found": True, "kind": "session", "what": f"after redefining a function in a later input, a call through a function value gives {v4!r} instead of [11, 12, 13]", "input": "\n%%\n".join(seq), "output": str(got2)[:400], "cmd": f"{BIN} session", "stdin": "\n%%\n".join(seq)}
     return {"found": False, "note": f"{len(C09_PROGRAMS)} programs (shadowing, where-clauses, conditionals, NaN comparisons, lists, structs, strings, recursion, function values) evaluate to their expected values"}
 
 
